@@ -448,6 +448,26 @@ example : ((run [.nothing, .del 1] (step [.nothing, .del 1]
       (run [.nothing, .del 1] St.init [.owned 0 (.cxx 1) 1, .method 0]) (.release 0))
       [.release 0, .construct 0 1 1, .delete 0 1, .release 0]).heap 1).frees = 1 := by decide
 
+/-- **a reused capsule**: Fortran finalises an `intent(OUT)` capsule argument on entry, i.e. the
+    wrapper call `owned h ..` is preceded by `release h`: the memory the capsule held before is freed
+    exactly once, whatever disciplined history follows -/
+theorem capsule_reuse_releases_previous (hz : tbl[0]? = some .nothing) {s : St} (g : Good tbl ht S s)
+    (h : Nat) (hS : S h) (d : Dtor) (ha : (s.hs h).addr ≠ 0)
+    (hd : tbl[(s.hs h).idtor]? = some d) (hn : d ≠ .nothing) (k : Kind) (idt : Nat)
+    (hw : (Op.owned h k idt).WellTyped tbl) (hty : ht h = k) (later : List Op)
+    (hall : ∀ op ∈ later, op.WellTyped tbl ∧ op.Typed ht ∧ op.Disc S) :
+    ((run tbl (step tbl s (.release h)) (.owned h k idt :: later)).heap (s.hs h).addr).frees = 1 :=
+  release_frees_exactly_once hz g h hS d ha hd hn (.owned h k idt :: later) (by
+    intro op ho
+    simp only [List.mem_cons] at ho
+    rcases ho with rfl | ho
+    · exact ⟨hw, hty, trivial⟩
+    · exact hall op ho)
+
+/-- without the finalisation on entry the overwritten object is never freed (sensitivity witness) -/
+theorem capsule_overwrite_without_release_leaks :
+    ((run [.nothing, .free] St.init [.owned 0 .pod 1, .owned 0 .pod 1, .release 0]).heap 1).frees = 0 := by decide
+
 /-- the same for the explicit destructor wrapper `<Class>_dtor` -/
 theorem delete_frees_exactly_once (hz : tbl[0]? = some .nothing) {s : St} (g : Good tbl ht S s)
     (h ty : Nat) (hS : S h) (hty : ht h = .cxx ty) (ha : (s.hs h).addr ≠ 0) (later : List Op)
